@@ -20,8 +20,9 @@ Dump == /\ E.ev = "dump"
                v2 == Note(E.worker = "timeout" \/ (E.worker = "exited" /\ E.outcome \in {"ok", "err"}), v1, "C02-panic-or-crash-" \o E.class)
                v3 == Note(E.devOpened = 0, v2, "C02-opened-a-file-under-dev")
            IN viol' = v3
-        /\ drift' = Note(E.worker = "exited" /\ E.outcome \in {"ok", "err"} => (E.outcome = "err") = AppFails(E.input),
-                         Note(E.worker = "exited" /\ E.outcome = "ok" => (E.dsoFailed = DsoFails(E.input)), drift, "linker-data-outcome"), "hard-error-outcome")
+        /\ drift' = Note((E.input.thr = "vfork" /\ ~WaitHasDeadline) = (E.worker = "timeout"),
+                    Note(E.worker = "exited" /\ E.outcome \in {"ok", "err"} => (E.outcome = "err") = AppFails(E.input),
+                         Note(E.worker = "exited" /\ E.outcome = "ok" => (E.dsoFailed = DsoFails(E.input)), drift, "linker-data-outcome"), "hard-error-outcome"), "wait-for-the-stop-outcome")
         /\ cnt' = [cnt EXCEPT !.dump = @ + 1] /\ nchk' = nchk + 1
 Pure == /\ E.ev = "pure"
         /\ viol' = Note(E.outcome # "panic", viol, "C02-panic-in-" \o E.fn)
